@@ -54,7 +54,10 @@ pub(crate) fn backup_stem(path: &Path) -> Option<PathBuf> {
     let name = path.file_name()?.as_bytes();
     let inner = name.strip_suffix(b"~")?;
     let pos = inner.windows(2).rposition(|w| w == b".~")?;
-    std::str::from_utf8(&inner[pos + 2..]).ok()?.parse::<u64>().ok()?;
+    let digits = &inner[pos + 2..];
+    if digits.is_empty() || !digits.iter().all(u8::is_ascii_digit) {
+        return None;
+    }
     if pos == 0 {
         return None;
     }
@@ -113,13 +116,13 @@ fn is_num_backup<S: AsRef<OsStr> + ?Sized>(base_file: &S, candidate: &Path) -> O
     let ext = cname
         .strip_prefix(base_file.as_ref().as_bytes())?
         .strip_prefix(b".")?;
-    let num = get_regex()
+    let digits = get_regex()
         .captures(std::str::from_utf8(ext).ok()?)?
         .get(1)?
-        .as_str()
-        .parse::<u64>()
-        .ok()?;
-    Some(num)
+        .as_str();
+    // A number too large for us is a backup all the same: count it as
+    // the largest there is, so that no smaller one is handed out.
+    Some(digits.parse::<u64>().unwrap_or(u64::MAX))
 }
 
 #[cfg(test)]
